@@ -133,6 +133,7 @@ def _main(a, prop, seed, t0, scratch):
     tot = dict(paths=0, decisions=0, sym_decisions=0, nontrivial=0, queries=0, obligations=0, trivial=0, discharged=0,
                inconclusive=0, spurious=0, violations=0, witness=0, solver_time=0.0, infeasible=0, via_abs=0)
     samples, per_h, budgets, stubs, labels = [], [], [], set(), set()
+    undecided = {}
     seen_known = set()
     for r in results:
         if "fatal" in r:
@@ -156,6 +157,10 @@ def _main(a, prop, seed, t0, scratch):
         tot["via_abs"] += r.get("via_abstraction", 0)
         tot["inconclusive"] += len(r.get("inconclusive", []))
         tot["spurious"] += len(r.get("spurious", []))
+        for kind in ("inconclusive", "spurious"):
+            for v in r.get(kind, []):
+                key = (kind, r["harness"], str(v.get("label") if isinstance(v, dict) else v)[:160])
+                undecided[key] = undecided.get(key, 0) + 1
         tot["witness"] += r.get("witness_validated", 0)
         tot["solver_time"] += r.get("solver_time", 0.0)
         stubs.update(r.get("stubs", []))
@@ -205,6 +210,7 @@ def _main(a, prop, seed, t0, scratch):
             "inconclusive": tot["inconclusive"], "spurious_models_not_reproduced": tot["spurious"],
             "feasible_paths": tot["paths"], "infeasible_prefixes": tot["infeasible"], "symbolic_forks": tot["sym_decisions"],
             "solver_time_s": round(tot["solver_time"], 2), "harnesses": per_h,
+            "undecided_obligations": [{"kind": k[0], "harness": k[1], "label": k[2], "count": n} for k, n in sorted(undecided.items())][:60],
             "budget_exceeded": budgets, "exhaustive": not budgets and not fatal and tot["inconclusive"] == 0,
             "functions_encoded": meta.get("encoded", []),
             "source_sha256": H.source_hashes([os.path.join(repo.ROOT, f) for f in files]),
@@ -227,6 +233,8 @@ def _main(a, prop, seed, t0, scratch):
           % (prop, a.tier, len(results), tot["paths"], tot["queries"], tot["obligations"], tot["discharged"], tot["inconclusive"], tot["spurious"], tot["witness"], tot["violations"], wall))
     for b in budgets:
         print("INCONCLUSIVE(budget): " + b)
+    for k, n in sorted(undecided.items())[:20]:
+        print("NOTE %s x%d: %s :: %s" % (("INCONCLUSIVE(solver)" if k[0] == "inconclusive" else "SPURIOUS(model not reproduced on the real code)"), n, k[1], k[2]))
     for line in known_lines:
         print(line)
     for line in viol_lines:
